@@ -21,8 +21,11 @@ WARMUP = 240          # the warm-up window of property C14 (jesse's default env.
 SOURCES = ["close", "high", "low", "open", "volume", "hl2", "hlc3", "ohlc4"]
 SECOND = ("benchmark_candles", "candles_compare")
 STR_CHOICES = {"direction": ["long", "short"], "mode_switch": ["Hma", "Ehma", "Thma"], "anchor": ["D", "h"]}
-ENUM_INT = {"matype": list(range(0, 40)), "fast_matype": [0, 1, 2], "slow_matype": [0, 1, 2], "slowk_matype": [0, 1, 2],
-            "slowd_matype": [0, 1, 2], "fastd_matype": [0, 1, 2], "devtype": [0, 1, 2], "mode": [0, 1, 2, 3, 4],
+MATYPE_SWEEP = [0, 1, 2, 3, 4, 5, 6, 12, 23, 10, 14, 32]     # window averages, recursive ones (ema, dema, tema, kama, wilders,
+                                                             # smma, mwdx), hma, a 2-pole filter
+ENUM_INT = {"matype": list(range(0, 40)), "fast_matype": MATYPE_SWEEP, "slow_matype": MATYPE_SWEEP,
+            "slowk_matype": MATYPE_SWEEP, "slowd_matype": MATYPE_SWEEP, "fastd_matype": MATYPE_SWEEP,
+            "signal_matype": MATYPE_SWEEP, "ma_type": MATYPE_SWEEP, "devtype": [0, 1, 2], "mode": [0, 1, 2, 3, 4],
             "method": [0, 1, 2], "poles": [1, 2, 3, 4], "power": [1, 2, 3]}
 
 
@@ -99,6 +102,25 @@ def boundary_variants(entry, values=(1, 2, 3)):
         for n in names:
             out.append({n: 1})
             out.append({n: 2})
+    return out
+
+
+def matype_like(entry):
+    return [n for n in entry["params"] if "matype" in n or n == "ma_type"]
+
+
+def matype_variants(entry):
+    """sweep of every moving-average selector parameter over MATYPE_SWEEP (all selectors together; with several selectors
+    also each alone on a recursive type); values an indicator rejects raise and are skipped"""
+    names = matype_like(entry)
+    out = []
+    for m in MATYPE_SWEEP:
+        if names:
+            out.append({n: m for n in names})
+    if len(names) > 1:
+        for n in names:
+            out.append({n: 1})
+            out.append({n: 23})
     return out
 
 
